@@ -1091,3 +1091,39 @@ package server
 // the engine's answer is taken as given by the compaction (its own correctness is the subject of C01/C02/C06)
 //@ func (*LockDB).HasLock
 //@   modifies all
+
+// =====================================================================================================
+// C18: closing a connection. The wills are detached and the connection is marked closed and its proxies
+// repointed to the default protocol under the connection's lock before the first will runs; the drain
+// loop takes the wills from the head of the queue (registration pushes at the tail), one execution per
+// will; a second Close does nothing.
+// =====================================================================================================
+//@ func (*BinaryServerProtocol).ProcessCommad
+//@   at call LockCommandQueue.Push assert C18.will.register: calls(LockDB.Lock) == 0 && calls(LockDB.UnLock) == 0 && (arg1.CommandType == protocol.COMMAND_LOCK || arg1.CommandType == protocol.COMMAND_UNLOCK)
+//@   modifies all
+//@ func (*TextServerProtocol).ProcessCommad
+//@   modifies all
+//@ func (*SLock).removeServerProtocol
+//@   modifies all
+
+//@ func (*BinaryServerProtocol).Close
+//@   requires self != nil
+//@   loop#1 invariant -1 <= rangeindex && rangeindex < len(self.proxys) && self.proxys == old(self.proxys) && forall(j, 0, rangeindex + 1, ref(self.proxys[j].serverProtocol) == defaultServerProtocol)
+//@   loop#2 invariant calls(Pop) == calls(ProcessCommad) && calls(PopRight) == 0 && willCommands != nil
+//@   at call ProcessCommad assert C18.will.order: calls(PopRight) == 0 && calls(Pop) == calls(ProcessCommad) && command != nil && ref(arg1) == command
+//@   at call ProcessCommad assert C18.will.detached: !old(self.closed) && willCommands == old(self.willCommands) && calls(removeServerProtocol) == 1
+//@   at call removeServerProtocol assert C18.close.marked: self.closed && !old(self.closed) && len(self.proxys) <= 1 && forall(j, 0, len(old(self.proxys)), ref(old(self.proxys)[j].serverProtocol) == defaultServerProtocol)
+//@   at call removeServerProtocol after assume self.willCommands == before(self.willCommands) && self.glock == before(self.glock)
+//@   ensures C18.close.once: implies(old(self.closed), calls(ProcessCommad) == 0 && calls(Pop) == 0)
+//@   modifies all
+
+//@ func (*TextServerProtocol).Close
+//@   requires self != nil
+//@   loop#1 invariant -1 <= rangeindex && rangeindex < len(self.proxys) && self.proxys == old(self.proxys) && forall(j, 0, rangeindex + 1, ref(self.proxys[j].serverProtocol) == defaultServerProtocol)
+//@   loop#2 invariant calls(Pop) == calls(ProcessCommad) && calls(PopRight) == 0 && willCommands != nil
+//@   at call ProcessCommad assert C18.will.order: calls(PopRight) == 0 && calls(Pop) == calls(ProcessCommad) && command != nil && ref(arg1) == command
+//@   at call ProcessCommad assert C18.will.detached: !old(self.closed) && willCommands == old(self.willCommands) && calls(removeServerProtocol) == 1
+//@   at call removeServerProtocol assert C18.close.marked: self.closed && !old(self.closed) && len(self.proxys) <= 1 && forall(j, 0, len(old(self.proxys)), ref(old(self.proxys)[j].serverProtocol) == defaultServerProtocol)
+//@   at call removeServerProtocol after assume self.willCommands == before(self.willCommands) && self.glock == before(self.glock)
+//@   ensures C18.close.once: implies(old(self.closed), calls(ProcessCommad) == 0 && calls(Pop) == 0)
+//@   modifies all
